@@ -661,7 +661,7 @@ theorem newTokenResult_ext (h : Heap) (st : Nat) (b : BErr) : h.Ext (newTokenRes
     refine ⟨by simp [allocBE], ?_⟩
     intro hmem
     have := hi.held_lt _ (by simpa [allocBE] using hmem)
-    simp [allocBE] at this
+    simp at this
   obtain ⟨i2, s2⟩ := this h1.1
   exact ⟨i2, fun x hx => ⟨(s2 x (h1.2 x hx).1).1, ((s2 x (h1.2 x hx).1).2).trans (h1.2 x hx).2⟩⟩
 
@@ -883,5 +883,758 @@ theorem runOps_ext (ops : List Op) (s : State) : s.h.Ext (runOps s ops).h := by
   | cons o r ih => exact (step_ext s o).trans (ih _)
 
 theorem init_inv : ({} : Heap).Inv := ⟨by simp, by simp, by simp⟩
+
+
+/-! ## no pooled result is left "blocked" between ops, absent a panic after a block -/
+
+def Heap.Quiet (h : Heap) : Prop := ∀ t, (h.trs t).status ≠ 1
+
+theorem newTokenResult_status1 (h : Heap) (st : Nat) (b : BErr) (hst : st ≠ 1) (t : Nat)
+    (h1 : ((newTokenResult h st b).1.trs t).status = 1) : (h.trs t).status = 1 := by
+  simp only [newTokenResult, allocBE, allocTR, upd] at h1
+  split_ifs at h1 with e
+  · exact absurd h1 hst
+  · exact h1
+
+theorem resetToBlockedWith_status1 (h : Heap) (t0 : Nat) (b : BErr) (t : Nat)
+    (h1 : ((resetToBlockedWith h t0 b).trs t).status = 1) : (h.trs t).status = 1 ∨ t = t0 := by
+  by_cases e : t = t0
+  · exact Or.inr e
+  · left
+    unfold resetToBlockedWith at h1
+    cases hbe : (h.trs t0).be with
+    | none => simpa [hbe, allocBE, upd, e] using h1
+    | some a => simpa [hbe, upd, e] using h1
+
+theorem doBlock_status1 (c : Nat) (s : RSlot) (st : Style) (typ : Nat) (h : Heap) (t : Nat)
+    (h1 : ((doBlock c s st typ h).1.trs t).status = 1) : (h.trs t).status = 1 ∨ t = (doBlock c s st typ h).2 := by
+  cases st with
+  | fresh =>
+    by_cases e : t = h.ntr
+    · right; simpa [doBlock, newTokenResult, allocBE, allocTR] using e
+    · left; simpa [doBlock, newTokenResult, allocBE, allocTR, upd, e] using h1
+  | ctx => exact resetToBlockedWith_status1 h _ _ t h1
+  | own => exact resetToBlockedWith_status1 h _ _ t h1
+
+theorem runRules_status1 (c : Nat) (rs : List RSlot) (h : Heap) (t : Nat)
+    (h1 : ((runRules c rs h).1.trs t).status = 1) :
+    (h.trs t).status = 1 ∨ (runRules c rs h).2.2.2 = .blocked t := by
+  induction rs generalizing h with
+  | nil => exact Or.inl h1
+  | cons s r ih =>
+    cases hb : s.beh with
+    | panic => left; simpa [runRules, hb] using h1
+    | block st typ =>
+      have := doBlock_status1 c s st typ h t (by simpa [runRules, hb] using h1)
+      rcases this with h | h
+      · exact Or.inl h
+      · right; simp [runRules, hb, h]
+    | wait =>
+      rcases ih (newTokenResult h 2 {}).1 (by simpa [runRules, hb] using h1) with h' | h'
+      · exact Or.inl (newTokenResult_status1 h 2 {} (by decide) t h')
+      · right; simpa [runRules, hb] using h'
+    | pass =>
+      rcases ih (newTokenResult h 0 {}).1 (by simpa [runRules, hb] using h1) with h' | h'
+      · exact Or.inl (newTokenResult_status1 h 0 {} (by decide) t h')
+      · right; simpa [runRules, hb] using h'
+    | nil =>
+      rcases ih h (by simpa [runRules, hb] using h1) with h' | h'
+      · exact Or.inl h'
+      · right; simpa [runRules, hb] using h'
+
+theorem runRules_blocked_stop (c : Nat) (rs : List RSlot) (h : Heap) (t : Nat)
+    (ho : (runRules c rs h).2.2.2 = .blocked t) : (stopOf rs).verdict.isSome = true := by
+  cases hs : stopOf rs with
+  | allPass => rw [runRules_allPass c rs h hs] at ho; simp at ho
+  | panic => rw [runRules_panic c rs h hs] at ho; simp at ho
+  | block s typ => simp [Stop.verdict]
+
+/-- after `SlotChain.Entry` on a quiet heap only the context's own result can be marked blocked, and only because a rule
+    slot blocked -/
+theorem chainEntry_status1 (ch : ChainDef) (c : Nat) (h : Heap) (hq : h.Quiet) (t : Nat)
+    (h1 : ((chainEntry ch c h).1.trs t).status = 1) :
+    (chainEntry ch c h).1.ctxs c = t ∧ prepPanics ch.ps = false ∧ (stopOf ch.rs).verdict.isSome = true := by
+  unfold chainEntry at h1 ⊢
+  by_cases hp : prepPanics ch.ps = true
+  · have := runPrep_panic _ hp
+    rcases hrp : runPrep ch.ps with ⟨l1, k1, p1⟩
+    rw [hrp] at this h1
+    simp only at this
+    subst this
+    simp only [if_true] at h1
+    exact absurd h1 (hq t)
+  · simp only [Bool.not_eq_true] at hp
+    simp only [runPrep_noPanic _ hp, Bool.false_eq_true, if_false] at h1 ⊢
+    have hs1 := runRules_status1 c ch.rs h t
+    have hbs := runRules_blocked_stop c ch.rs h
+    rcases hrr : runRules c ch.rs h with ⟨h2, l2, k2, ro⟩
+    rw [hrr] at h1 hs1 hbs
+    simp only at h1 hs1 hbs
+    cases ro with
+    | panic =>
+      simp only at h1
+      rcases hs1 h1 with h' | h'
+      · exact absurd h' (hq t)
+      · simp at h'
+    | allPass =>
+      simp only at h1
+      by_cases e : t = h2.ctxs c
+      · simp [resetToPass, upd, e] at h1
+      · have : (h2.trs t).status = 1 := by simpa [resetToPass, upd, e] using h1
+        rcases hs1 this with h' | h'
+        · exact absurd h' (hq t)
+        · simp at h'
+    | blocked t0 =>
+      simp only at h1 ⊢
+      rcases hs1 h1 with h' | h'
+      · exact absurd h' (hq t)
+      · simp only [RuleOut.blocked.injEq] at h'
+        subst h'
+        exact ⟨by simp [upd], hp, hbs t0 rfl⟩
+
+theorem poolGet_quiet (h : Heap) (hq : h.Quiet) : (poolGet h).1.Quiet := by
+  intro t h1
+  unfold poolGet at h1
+  cases hp : h.priv with
+  | some c => simp [hp] at h1; exact hq t h1
+  | none =>
+    cases hs : h.shared with
+    | cons c r => simp [hp, hs] at h1; exact hq t h1
+    | nil =>
+      simp only [hp, hs] at h1
+      exact hq t (newTokenResult_status1 h 0 {} (by decide) t h1)
+
+theorem refurbish_trs (h : Heap) (c : Nat) : (refurbish h c).trs = upd h.trs (h.ctxs c) { status := 0, be := none } := by
+  unfold refurbish poolPut resetToPass
+  cases h.priv <;> rfl
+
+theorem refurbish_quiet (h : Heap) (c : Nat) (hq : h.Quiet) : (refurbish h c).Quiet := by
+  intro t h1
+  rw [refurbish_trs] at h1
+  by_cases e : t = h.ctxs c
+  · simp [upd, e] at h1
+  · exact hq t (by simpa [upd, e] using h1)
+
+theorem exitBody_quiet (ss : List SSlot) (hooks : Hooks) (c : Nat) (h : Heap) (hq : h.Quiet) :
+    (exitBody ss hooks c h).1.Quiet := by
+  simpa [exitBody] using refurbish_quiet h c hq
+
+theorem apiEntry_quiet (ch : ChainDef) (h : Heap) (hq : h.Quiet) (hbp : blockPanics ch = false) :
+    (apiEntry ch h).1.Quiet := by
+  have hg := poolGet_quiet h hq
+  cases hp : entryPanics ch with
+  | true =>
+    intro t h1
+    unfold apiEntry at h1
+    rcases hpg : poolGet h with ⟨hh, c⟩
+    rw [hpg] at hg h1
+    dsimp only at hg h1
+    have hn := chainEntry_panics ch c hh hp
+    have hs1 := chainEntry_status1 ch c hh hg t
+    rcases hce : chainEntry ch c hh with ⟨h2, l, ks, r⟩
+    rw [hce] at hn hs1 h1
+    simp only at hn hs1 h1
+    subst hn
+    simp only at h1
+    obtain ⟨_, e2, e3⟩ := hs1 h1
+    have h3 : statPanics (stopOf ch.rs).blk ch.ss = false := by simpa [blockPanics, e2, e3] using hbp
+    have : entryPanics ch = false := by
+      cases hs : stopOf ch.rs with
+      | allPass => simp [hs, Stop.verdict] at e3
+      | panic => simp [hs, Stop.verdict] at e3
+      | block s typ => simp only [entryPanics, e2, h3]; simp [hs, Stop.isPanic]
+    rw [this] at hp; exact absurd hp (by simp)
+  | false =>
+    cases hs : stopOf ch.rs with
+    | panic => have := (entryPanics_false ch hp).2.1; simp [hs, Stop.isPanic] at this
+    | allPass =>
+      intro t h1
+      have h4 := (apiEntry_pass ch h hp hs).2.2
+      unfold apiEntry at h1 h4
+      rcases hpg : poolGet h with ⟨hh, c⟩
+      rw [hpg] at hg h1 h4
+      dsimp only at hg h1 h4
+      obtain ⟨h1', _, h3'⟩ := entryPanics_false ch hp
+      rw [hs] at h3'
+      obtain ⟨e1, e2, e3, e4⟩ := chainEntry_pass ch c hh h1' hs h3'
+      have hs1 := chainEntry_status1 ch c hh hg t
+      rcases hce : chainEntry ch c hh with ⟨h2, l, ks, r⟩
+      rw [hce] at e3 e4 hs1 h1
+      simp only at e3 e4 hs1 h1
+      subst e3
+      have hnb : isBlockedTR h2 (h2.ctxs c) = false := by simp [isBlockedTR, e4]
+      simp only [hnb, Bool.false_eq_true, if_false] at h1
+      obtain ⟨e, _, _⟩ := hs1 h1
+      rw [← e] at h1; rw [e4] at h1; exact absurd h1 (by decide)
+    | block s typ =>
+      intro t h1
+      unfold apiEntry at h1
+      rcases hpg : poolGet h with ⟨hh, c⟩
+      rw [hpg] at hg h1
+      dsimp only at hg h1
+      obtain ⟨h1', _, h3'⟩ := entryPanics_false ch hp
+      rw [hs] at h3'
+      obtain ⟨e1, e2, e3, e4, e5⟩ := chainEntry_block ch c hh s typ h1' hs h3'
+      have hs1 := chainEntry_status1 ch c hh hg t
+      rcases hce : chainEntry ch c hh with ⟨h2, l, ks, r⟩
+      rw [hce] at e3 e4 e5 hs1 h1
+      simp only at e3 e4 e5 hs1 h1
+      subst e3
+      have hb : isBlockedTR h2 (h2.ctxs c) = true := by simp [isBlockedTR, e4]
+      simp only [hb, if_true, e5] at h1
+      simp only [exitBody, allocBE, refurbish_trs] at h1
+      by_cases e : t = h2.ctxs c
+      · simp [upd, e] at h1
+      · have : (h2.trs t).status = 1 := by simpa [upd, e] using h1
+        exact e (hs1 this).1.symm
+
+theorem addSlot_quiet (h : Heap) (ch : ChainDef) (x : SlotSpec) (hq : h.Quiet) : (addSlot h ch x).1.Quiet := by
+  cases x with
+  | p x => exact hq
+  | s x => exact hq
+  | r x =>
+    simp only [addSlot]
+    split_ifs
+    · intro t h1; exact hq t (newTokenResult_status1 h 0 {} (by decide) t h1)
+    · exact hq
+
+theorem addSlots_quiet (xs : List SlotSpec) (h : Heap) (ch : ChainDef) (hq : h.Quiet) : (addSlots xs h ch).1.Quiet := by
+  induction xs generalizing h ch with
+  | nil => exact hq
+  | cons x r ih =>
+    unfold addSlots
+    have := addSlot_quiet h ch x hq
+    rcases hx : addSlot h ch x with ⟨h1, ch1⟩
+    rw [hx] at this
+    exact ih h1 ch1 this
+
+
+@[simp] theorem setChain_lastLog (s : State) (n : String) (ch : ChainDef) : (setChain s n ch).lastLog = s.lastLog := rfl
+@[simp] theorem setEntry_lastLog (s : State) (r : EntryRec) : (setEntry s r).lastLog = s.lastLog := rfl
+
+/-- the op is not an `Entry` on a chain where a statistic slot panics after a rule slot blocked -/
+def Op.blockPanicFree (s : State) : Op → Prop
+  | .entry _ n => ∀ ch, findChain s n = some ch → blockPanics ch = false
+  | _ => True
+
+theorem step_quiet (s : State) (op : Op) (hq : s.h.Quiet) (hop : op.blockPanicFree s) : (step s op).1.h.Quiet := by
+  cases op with
+  | chain n slots =>
+    simp only [step, stepChain]
+    cases findChain s n with
+    | some _ => exact hq
+    | none => exact addSlots_quiet slots s.h {} hq
+  | add n slot =>
+    simp only [step, stepAdd]
+    cases findChain s n with
+    | none => exact hq
+    | some ch => exact addSlot_quiet s.h ch slot hq
+  | entry e n =>
+    simp only [step, stepEntry]
+    cases findEntry s e with
+    | some _ => exact hq
+    | none =>
+      cases hc : findChain s n with
+      | none => exact hq
+      | some ch =>
+        have := apiEntry_quiet ch s.h hq (hop ch hc)
+        simp only [recordEntry]
+        cases (apiEntry ch s.h).2.2 <;> exact this
+  | whenexit e id b =>
+    simp only [step, stepWhenExit]
+    cases findEntry s e with
+    | none => exact hq
+    | some r =>
+      dsimp only
+      split_ifs <;> exact hq
+  | exit e =>
+    simp only [step, stepExit]
+    cases findEntry s e with
+    | none => exact hq
+    | some r =>
+      dsimp only
+      split_ifs
+      · exact hq
+      · exact hq
+      · cases findChain s r.chain with
+        | none => exact hq
+        | some ch => exact exitBody_quiet ch.ss r.hooks r.ctx s.h hq
+  | log => exact hq
+  | ident e =>
+    simp only [step]
+    cases findEntry s e <;> exact hq
+  | blockerr e =>
+    simp only [step, stepBlockErr]
+    cases findEntry s e with
+    | none => exact hq
+    | some r => dsimp only; cases r.blockAt <;> exact hq
+  | globalorder => exact hq
+
+theorem stepExit_log (s : State) (e : String) (r : EntryRec) (ch : ChainDef) (l : List Call) (hq : s.h.Quiet)
+    (hr : findEntry s e = some r) (hnb : r.blockAt = none) (hne : r.exited = false)
+    (hc : findChain s r.chain = some ch) (hl : specExitLog ch.ss r.hooks = some l) :
+    (stepExit s e).1.lastLog = l ∧ (stepExit s e).2 = .ok := by
+  have hb : isBlockedTR s.h (s.h.ctxs r.ctx) = false := by
+    have := hq (s.h.ctxs r.ctx)
+    simp [isBlockedTR, this]
+  simp [stepExit, hr, hnb, hne, hc, exitBody_log ch.ss r.hooks r.ctx s.h hb l hl]
+
+theorem init_quiet : ({} : Heap).Quiet := by intro t; simp
+
+
+/-! ## the chains in the model state are the stable sorts of their insertion histories -/
+
+/-- forget the address of the slot-owned result object (the only thing the model adds to a slot) -/
+def RSlot.core (s : RSlot) : RSlot := { s with own := 0 }
+def ChainDef.core (ch : ChainDef) : ChainDef := { ch with rs := ch.rs.map RSlot.core }
+
+theorem insertSlot_map {α β : Type} (oa : α → Nat) (ob : β → Nat) (f : α → β) (hf : ∀ a, ob (f a) = oa a)
+    (x : α) (l : List α) : (insertSlot oa x l).map f = insertSlot ob (f x) (l.map f) := by
+  induction l with
+  | nil => rfl
+  | cons y ys ih =>
+    simp only [insertSlot, List.map_cons, hf]
+    split_ifs
+    · simp [ih]
+    · simp
+
+theorem addAll_map {α β : Type} (oa : α → Nat) (ob : β → Nat) (f : α → β) (hf : ∀ a, ob (f a) = oa a)
+    (xs : List α) : (addAll oa xs).map f = addAll ob (xs.map f) := by
+  induction xs using List.reverseRecOn with
+  | nil => rfl
+  | append_singleton r x ih =>
+    rw [addAll_append, List.map_append, List.map_singleton, addAll_append, ← ih, insertSlot_map oa ob f hf]
+
+/-- the heap-free effect of adding a slot -/
+def addPure (ch : ChainDef) : SlotSpec → ChainDef
+  | .p x => { ch with ps := insertSlot (·.order) x ch.ps }
+  | .r x => { ch with rs := insertSlot (·.order) x.core ch.rs }
+  | .s x => { ch with ss := insertSlot (·.order) x ch.ss }
+
+theorem addSlot_core (h : Heap) (ch : ChainDef) (x : SlotSpec) : (addSlot h ch x).2.core = addPure ch.core x := by
+  cases x with
+  | p x => rfl
+  | s x => rfl
+  | r x =>
+    simp only [addSlot]
+    split_ifs
+    · simp only [ChainDef.core, addPure]
+      rw [insertSlot_map (·.order) (·.order) RSlot.core (fun _ => rfl)]
+      rfl
+    · simp only [ChainDef.core, addPure]
+      rw [insertSlot_map (·.order) (·.order) RSlot.core (fun _ => rfl)]
+
+theorem addSlots_core (xs : List SlotSpec) (h : Heap) (ch : ChainDef) :
+    (addSlots xs h ch).2.core = xs.foldl addPure ch.core := by
+  induction xs generalizing h ch with
+  | nil => rfl
+  | cons x r ih =>
+    unfold addSlots
+    have := addSlot_core h ch x
+    rcases hx : addSlot h ch x with ⟨h1, ch1⟩
+    rw [hx] at this
+    simp only at this
+    rw [List.foldl_cons, ← this]
+    exact ih h1 ch1
+
+theorem insP_append (a b : List SlotSpec) : insP (a ++ b) = insP a ++ insP b := by simp [insP]
+theorem insR_append (a b : List SlotSpec) : insR (a ++ b) = insR a ++ insR b := by simp [insR]
+theorem insS_append (a b : List SlotSpec) : insS (a ++ b) = insS a ++ insS b := by simp [insS]
+
+/-- the chain as `Add…Slot` builds it, without the heap -/
+def pureChain (ins : List SlotSpec) : ChainDef :=
+  { ps := addAll (·.order) (insP ins), rs := addAll (·.order) ((insR ins).map RSlot.core), ss := addAll (·.order) (insS ins) }
+
+theorem pureChain_snoc (ins : List SlotSpec) (x : SlotSpec) : pureChain (ins ++ [x]) = addPure (pureChain ins) x := by
+  cases x with
+  | p x => simp [pureChain, addPure, insP, insR, insS, addAll_append]
+  | r x => simp [pureChain, addPure, insP, insR, insS, addAll_append]
+  | s x => simp [pureChain, addPure, insP, insR, insS, addAll_append]
+
+theorem foldl_addPure (xs ins : List SlotSpec) : xs.foldl addPure (pureChain ins) = pureChain (ins ++ xs) := by
+  induction xs generalizing ins with
+  | nil => simp
+  | cons x r ih => rw [List.foldl_cons, ← pureChain_snoc, ih]; simp
+
+theorem pureChain_eq_spec (ins : List SlotSpec) : pureChain ins = (specChain ins).core := by
+  simp only [pureChain, specChain, ChainDef.core, addAll_eq_stableSort]
+  congr 1
+  rw [← addAll_eq_stableSort, ← addAll_eq_stableSort, addAll_map (·.order) (·.order) RSlot.core (fun _ => rfl)]
+
+theorem pureChain_nil : pureChain [] = ({} : ChainDef).core := rfl
+
+/-- the relation kept between the model state and the reference state -/
+def ChainsAgree (s : State) (s' : SState) : Prop :=
+  ∀ n, (findChain s n).map ChainDef.core = (s'.findChain n).map pureChain
+
+theorem find_filter_ne {β : Type} (l : List (String × β)) (n m : String) (e : ¬ n = m) :
+    (l.filter (fun x => decide (x.1 ≠ n))).find? (fun x => decide (x.1 = m)) = l.find? (fun x => decide (x.1 = m)) := by
+  induction l with
+  | nil => rfl
+  | cons y ys ih =>
+    by_cases e1 : y.1 = n
+    · have e2 : ¬ y.1 = m := fun h => e (e1.symm.trans h)
+      rw [List.filter_cons, List.find?_cons]
+      simp only [e1, ne_eq, not_true_eq_false, decide_false, Bool.false_eq_true, if_false]
+      rw [ih]
+      have : decide (n = m) = false := by simp [e]
+      simp [this]
+    · rw [List.filter_cons]
+      simp only [ne_eq, e1, not_false_eq_true, decide_true, if_true]
+      rw [List.find?_cons, List.find?_cons, ih]
+
+theorem find_set_chain {β : Type} (l : List (String × β)) (n m : String) (v : β) :
+    ((((n, v) :: l.filter (·.1 ≠ n)).find? (·.1 = m)).map (·.2)) =
+      if n = m then some v else (l.find? (·.1 = m)).map (·.2) := by
+  by_cases e : n = m
+  · simp [e]
+  · rw [List.find?_cons]
+    simp only [e, decide_false, if_false]
+    rw [find_filter_ne l n m e]
+
+theorem findChain_setChain (s : State) (n m : String) (ch : ChainDef) :
+    findChain (setChain s n ch) m = if n = m then some ch else findChain s m := by
+  simp only [findChain, setChain]
+  exact find_set_chain s.chains n m ch
+
+theorem sfindChain_setChain (s : SState) (n m : String) (ins : List SlotSpec) :
+    (s.setChain n ins).findChain m = if n = m then some ins else s.findChain m := by
+  simp only [SState.findChain, SState.setChain]
+  exact find_set_chain s.chains n m ins
+
+theorem ChainsAgree.of_chains {s t : State} {s' t' : SState} (h : ChainsAgree s s')
+    (e1 : t.chains = s.chains) (e2 : t'.chains = s'.chains) : ChainsAgree t t' := by
+  intro n
+  have := h n
+  simpa [findChain, SState.findChain, e1, e2] using this
+
+theorem recordEntry_chains (s : State) (e n : String) (r : Heap × List Call × EntryRes) :
+    (recordEntry s e n r).1.chains = s.chains := by
+  unfold recordEntry
+  cases r.2.2 <;> rfl
+
+theorem step_agree (s : State) (s' : SState) (op : Op) (h : ChainsAgree s s') :
+    ChainsAgree (step s op).1 (sstep s' op).1 := by
+  cases op with
+  | chain n slots =>
+    simp only [step, stepChain, sstep]
+    have hn := h n
+    cases h1 : findChain s n with
+    | some ch =>
+      rw [h1] at hn
+      cases h2 : s'.findChain n with
+      | none => simp [h2] at hn
+      | some _ => exact h
+    | none =>
+      rw [h1] at hn
+      cases h2 : s'.findChain n with
+      | some _ => simp [h2] at hn
+      | none =>
+        intro m
+        rw [findChain_setChain, sfindChain_setChain]
+        by_cases e : n = m
+        · simp only [e, if_true, Option.map_some]
+          rw [addSlots_core, ← pureChain_nil, foldl_addPure]; simp
+        · simp only [e, if_false]; exact h m
+  | add n slot =>
+    simp only [step, stepAdd, sstep]
+    have hn := h n
+    cases h1 : findChain s n with
+    | none =>
+      rw [h1] at hn
+      cases h2 : s'.findChain n with
+      | some _ => simp [h2] at hn
+      | none => exact h
+    | some ch =>
+      rw [h1] at hn
+      cases h2 : s'.findChain n with
+      | none => simp [h2] at hn
+      | some ins =>
+        rw [h2] at hn
+        simp only [Option.map_some, Option.some.injEq] at hn
+        intro m
+        rw [findChain_setChain, sfindChain_setChain]
+        by_cases e : n = m
+        · simp only [e, if_true, Option.map_some]
+          rw [addSlot_core, hn, pureChain_snoc]
+        · simp only [e, if_false]; exact h m
+  | entry e n =>
+    apply h.of_chains
+    · simp only [step, stepEntry]
+      cases findEntry s e with
+      | some _ => rfl
+      | none =>
+        cases findChain s n with
+        | none => rfl
+        | some ch => exact recordEntry_chains _ _ _ _
+    · simp only [sstep]
+      cases s'.findEntry e with
+      | some _ => rfl
+      | none =>
+        cases s'.findChain n with
+        | none => rfl
+        | some ins =>
+          dsimp only
+          cases specVerdict (specChain ins) <;> rfl
+  | whenexit e id b =>
+    apply h.of_chains
+    · simp only [step, stepWhenExit]
+      cases findEntry s e with
+      | none => rfl
+      | some r => dsimp only; split_ifs <;> rfl
+    · simp only [sstep]
+      cases s'.findEntry e with
+      | none => rfl
+      | some r => dsimp only; split_ifs <;> rfl
+  | exit e =>
+    apply h.of_chains
+    · simp only [step, stepExit]
+      cases findEntry s e with
+      | none => rfl
+      | some r =>
+        dsimp only
+        split_ifs
+        · rfl
+        · rfl
+        · cases findChain s r.chain <;> rfl
+    · simp only [sstep]
+      cases s'.findEntry e with
+      | none => rfl
+      | some r =>
+        dsimp only
+        by_cases h1 : r.verdict.isSome = true
+        · simp only [h1, if_true]
+        · by_cases h2 : r.exited = true
+          · simp only [h1, h2, if_true, Bool.false_eq_true, if_false]
+          · simp only [h1, h2, Bool.false_eq_true, if_false]
+            cases s'.findChain r.chain <;> rfl
+  | log => exact h
+  | ident e =>
+    apply h.of_chains
+    · simp only [step]; cases findEntry s e <;> rfl
+    · simp only [sstep]; cases s'.findEntry e <;> rfl
+  | blockerr e =>
+    apply h.of_chains
+    · simp only [step, stepBlockErr]
+      cases findEntry s e with
+      | none => rfl
+      | some r => dsimp only; cases r.blockAt <;> rfl
+    · simp only [sstep]
+      cases s'.findEntry e with
+      | none => rfl
+      | some r => dsimp only; cases r.verdict <;> rfl
+  | globalorder => exact h
+
+def srunOps (s : SState) (ops : List Op) : SState := ops.foldl (fun s o => (sstep s o).1) s
+
+theorem runOps_agree (ops : List Op) (s : State) (s' : SState) (h : ChainsAgree s s') :
+    ChainsAgree (runOps s ops) (srunOps s' ops) := by
+  induction ops generalizing s s' with
+  | nil => exact h
+  | cons o r ih => exact ih _ _ (step_agree s s' o h)
+
+theorem init_agree : ChainsAgree {} {} := by intro n; rfl
+
+
+/-! ## the caller's block error, end to end -/
+
+theorem apiEntry_blocked_held (ch : ChainDef) (h : Heap) (c a : Nat) (b : BErr)
+    (hr : (apiEntry ch h).2.2 = .blocked c a b) : a ∈ (apiEntry ch h).1.held ∧ (apiEntry ch h).1.bes a = b := by
+  cases hp : entryPanics ch with
+  | true => obtain ⟨c', ks, e⟩ := apiEntry_panics ch h hp; rw [e] at hr; simp at hr
+  | false =>
+    cases hs : stopOf ch.rs with
+    | allPass => rw [(apiEntry_pass ch h hp hs).2.1] at hr; simp at hr
+    | panic => have := (entryPanics_false ch hp).2.1; simp [hs, Stop.isPanic] at this
+    | block s typ =>
+      obtain ⟨_, a', e, hb, hm⟩ := apiEntry_block ch h s typ hp hs
+      rw [e] at hr
+      simp only [EntryRes.blocked.injEq] at hr
+      obtain ⟨_, rfl, rfl⟩ := hr
+      exact ⟨hm, hb⟩
+
+/-- every blocked entry on record points at a held block error -/
+def State.EntriesHeld (s : State) : Prop := ∀ r ∈ s.entries, ∀ a, r.blockAt = some a → a ∈ s.h.held
+
+theorem find_append_some {β : Type} (l : List β) (x : β) (p : β → Bool) (r : β) (h : l.find? p = some r) :
+    (l ++ [x]).find? p = some r := by
+  simp [List.find?_append, h]
+
+/-- what `blockerr e` answers in state `s`: `none` = `e` is not a blocked entry -/
+def blockErrOf (s : State) (e : String) : Option BErr :=
+  match findEntry s e with
+  | some r => r.blockAt.map s.h.bes
+  | none => none
+
+theorem stepBlockErr_eq (s : State) (e : String) (b : BErr) (h : blockErrOf s e = some b) :
+    stepBlockErr s e = (s, .berr b) := by
+  unfold blockErrOf at h
+  unfold stepBlockErr
+  cases hf : findEntry s e with
+  | none => simp [hf] at h
+  | some r =>
+    simp only [hf] at h ⊢
+    cases hb : r.blockAt with
+    | none => simp [hb] at h
+    | some a => simp only [hb, Option.map_some, Option.some.injEq] at h; simp [h]
+
+/-- where `e` is recorded as blocked at address `a` -/
+def blockedAt (s : State) (e : String) (a : Nat) : Prop :=
+  ∃ r, findEntry s e = some r ∧ r.blockAt = some a
+
+theorem find_map_replace (l : List EntryRec) (r : EntryRec) (e : String) (x : EntryRec)
+    (hx : l.find? (fun y => decide (y.name = e)) = some x) :
+    ∃ y, (l.map fun z => if z.name = r.name then r else z).find? (fun y => decide (y.name = e)) = some y ∧
+      (if e = r.name then y = r else y = x) := by
+  induction l with
+  | nil => simp at hx
+  | cons z zs ih =>
+    rw [List.find?_cons] at hx
+    by_cases hz : z.name = e
+    · simp only [hz, decide_true] at hx
+      simp only [Option.some.injEq] at hx
+      subst hx
+      by_cases he : e = r.name
+      · refine ⟨r, ?_, by simp [he]⟩
+        simp [hz, he]
+      · refine ⟨z, ?_, by simp [he]⟩
+        have : ¬ z.name = r.name := fun h => he (hz.symm.trans h)
+        simp [hz, he]
+    · simp only [hz, decide_false] at hx
+      obtain ⟨y, hy1, hy2⟩ := ih hx
+      refine ⟨y, ?_, hy2⟩
+      rw [List.map_cons, List.find?_cons]
+      by_cases hzr : z.name = r.name
+      · have : ¬ r.name = e := fun h => hz (hzr.trans h)
+        simp only [hzr, if_true, this, decide_false]
+        exact hy1
+      · simp only [hzr, if_false, hz, decide_false]
+        exact hy1
+
+theorem findEntry_setEntry (s : State) (r : EntryRec) (e : String) (x : EntryRec) (hx : findEntry s e = some x)
+    (_hr : True ∨ True) :
+    ∃ y, findEntry (setEntry s r) e = some y ∧ (if e = r.name then y = r else y = x) :=
+  find_map_replace s.entries r e x hx
+
+theorem step_blockedAt (s : State) (op : Op) (e : String) (a : Nat) (h : blockedAt s e a) :
+    blockedAt (step s op).1 e a := by
+  obtain ⟨x, hx, hxa⟩ := h
+  cases op with
+  | chain n slots =>
+    simp only [step, stepChain]
+    cases findChain s n with
+    | some _ => exact ⟨x, hx, hxa⟩
+    | none => exact ⟨x, hx, hxa⟩
+  | add n slot =>
+    simp only [step, stepAdd]
+    cases findChain s n with
+    | none => exact ⟨x, hx, hxa⟩
+    | some ch => exact ⟨x, hx, hxa⟩
+  | entry e' n =>
+    simp only [step, stepEntry]
+    cases findEntry s e' with
+    | some _ => exact ⟨x, hx, hxa⟩
+    | none =>
+      cases findChain s n with
+      | none => exact ⟨x, hx, hxa⟩
+      | some ch =>
+        simp only [recordEntry]
+        cases (apiEntry ch s.h).2.2 with
+        | passed c ks => exact ⟨x, find_append_some _ _ _ _ hx, hxa⟩
+        | blocked c a' b => exact ⟨x, find_append_some _ _ _ _ hx, hxa⟩
+        | escaped => exact ⟨x, hx, hxa⟩
+  | whenexit e' id b =>
+    simp only [step, stepWhenExit]
+    cases hf : findEntry s e' with
+    | none => exact ⟨x, hx, hxa⟩
+    | some r =>
+      dsimp only
+      split_ifs with hb
+      · exact ⟨x, hx, hxa⟩
+      · obtain ⟨y, hy1, hy2⟩ := findEntry_setEntry s { r with hooks := r.hooks ++ [(id, b)] } e x hx (Or.inr trivial)
+        refine ⟨y, hy1, ?_⟩
+        split_ifs at hy2 with he
+        · -- e is the entry being modified: then x = r and r is not blocked — contradiction with hxa
+          have hre : r.name = e' := by
+            have := List.find?_some hf; simpa using this
+          have : e = e' := he.trans hre
+          subst this
+          rw [hf] at hx
+          simp only [Option.some.injEq] at hx
+          subst hx
+          simp [hxa] at hb
+        · rw [hy2]; exact hxa
+  | exit e' =>
+    simp only [step, stepExit]
+    cases hf : findEntry s e' with
+    | none => exact ⟨x, hx, hxa⟩
+    | some r =>
+      dsimp only
+      by_cases hb : r.blockAt.isSome = true
+      · simp only [hb, if_true]; exact ⟨x, hx, hxa⟩
+      · simp only [hb, Bool.false_eq_true, if_false]
+        by_cases hex : r.exited = true
+        · simp only [hex, if_true]; exact ⟨x, hx, hxa⟩
+        · simp only [hex, Bool.false_eq_true, if_false]
+          cases findChain s r.chain with
+          | none => exact ⟨x, hx, hxa⟩
+          | some ch =>
+            dsimp only
+            obtain ⟨y, hy1, hy2⟩ := findEntry_setEntry
+              { s with h := (exitBody ch.ss r.hooks r.ctx s.h).1, lastLog := (exitBody ch.ss r.hooks r.ctx s.h).2 }
+              { r with exited := true } e x hx (Or.inr trivial)
+            refine ⟨y, hy1, ?_⟩
+            split_ifs at hy2 with he
+            · have hre : r.name = e' := by
+                have := List.find?_some hf; simpa using this
+              have : e = e' := he.trans hre
+              subst this
+              rw [hf] at hx
+              simp only [Option.some.injEq] at hx
+              subst hx
+              simp [hxa] at hb
+            · rw [hy2]; exact hxa
+  | log => exact ⟨x, hx, hxa⟩
+  | ident e' =>
+    simp only [step]
+    cases findEntry s e' <;> exact ⟨x, hx, hxa⟩
+  | blockerr e' =>
+    simp only [step, stepBlockErr]
+    cases findEntry s e' with
+    | none => exact ⟨x, hx, hxa⟩
+    | some r => dsimp only; cases r.blockAt <;> exact ⟨x, hx, hxa⟩
+  | globalorder => exact ⟨x, hx, hxa⟩
+
+theorem runOps_blockedAt (ops : List Op) (s : State) (e : String) (a : Nat) (h : blockedAt s e a) :
+    blockedAt (runOps s ops) e a := by
+  induction ops generalizing s with
+  | nil => exact h
+  | cons o r ih => exact ih _ (step_blockedAt s o e a h)
+
+/-- a blocked `entry` op records the entry at a held address whose content is the reported block error -/
+theorem stepEntry_block (s : State) (e n : String) (b : BErr) (h : (stepEntry s e n).2 = .block b) :
+    ∃ a, blockedAt (stepEntry s e n).1 e a ∧ a ∈ (stepEntry s e n).1.h.held ∧ (stepEntry s e n).1.h.bes a = b := by
+  unfold stepEntry at h ⊢
+  cases hf : findEntry s e with
+  | some _ => simp [hf] at h
+  | none =>
+    simp only [hf] at h ⊢
+    cases hc : findChain s n with
+    | none => simp [hc] at h
+    | some ch =>
+      simp only [hc] at h ⊢
+      unfold recordEntry at h ⊢
+      cases hr : (apiEntry ch s.h).2.2 with
+      | passed c ks => simp [hr] at h
+      | escaped => simp [hr] at h
+      | blocked c a b' =>
+        simp only [hr, Out.block.injEq] at h ⊢
+        subst h
+        obtain ⟨h1, h2⟩ := apiEntry_blocked_held ch s.h c a b' hr
+        refine ⟨a, ⟨{ name := e, chain := n, ctx := c, tr := (apiEntry ch s.h).1.ctxs c, exited := true, blockAt := some a }, ?_, rfl⟩, h1, h2⟩
+        unfold findEntry at hf ⊢
+        simp only
+        rw [List.find?_append, hf]
+        simp
 
 end Sentinel.Chain
